@@ -391,6 +391,8 @@ class Ctx:
                 w, c = self.known_hits.get(e["key"], (e.get("what", what), 0))
                 self.known_hits[e["key"]] = (w, c + int(payload.get("count", 1)))
                 return
+        if any(k == key for k, _, _ in self.violations):
+            return      # one report (and one replay file) per canonical key
         d = os.path.join(ROOT, "replays", self.pid if REPO == "/repo" else self.pid + "_alt")
         os.makedirs(d, exist_ok=True)
         h = hashlib.sha1((key + json.dumps(payload, sort_keys=True)).encode()).hexdigest()[:12]
